@@ -620,6 +620,33 @@ def _decodes_group_data(prog, x):
     return rc.call(x) and not other.call(x)
 
 
+def clause_ignored_has_no_effect(prog, rep):
+    """a result that tells the caller the event was ignored / unprocessable is only produced on paths that did not change the MLS state:
+    the block building `IgnoredProposal` is not reachable from the success edge of a state-advancing MLS call (a proposal that is
+    reported as ignored but was queued is committed by the next admin operation)"""
+    core = K.core_scope(prog)
+    roots = prog.find(adt="MDK", name="process_message", crate="mdk_core")
+    scope = set(p for p in prog.reachable(roots) if p in core)
+    adv = A.ReachCache(prog, lambda c: K.is_mls_call(c, *STATE_ADVANCING))
+    n = 0
+    for p in sorted(scope):
+        f = prog.fns[p]
+        for bb, st in f.aggregates("MessageProcessingResult", "IgnoredProposal"):
+            n += 1
+            before = []
+            for c in f.live_calls():
+                if not adv.call(c) or "to" not in c.t:
+                    continue
+                starts = set(sx for (w, sx) in A.success_edges(f, [c])) or {c.t["to"]}
+                if any(bb in f.reachable_from(b) or bb == b for b in starts):
+                    before.append(c)
+            rep.check(not before, "refused-event-writes", "%s/ignored-proposal-not-queued" % prog.fns.get(f.root, f).label(),
+                      "the IgnoredProposal answer is given only on paths that did not change the MLS group",
+                      "%s answers IgnoredProposal after %s succeeded: the proposal the caller is told was ignored sits in the pending-proposal queue "
+                      "and is carried out by the next commit" % (f.label(), ", ".join(sorted(set(c.name for c in before)))), "%s:%s" % (f.file, st.get("line") or f.line))
+    rep.floor("refused-event-writes", "IgnoredProposal answers on the receive path", n, 1)
+
+
 def clause_failure_writes(prog, rep):
     """before the MLS layer accepted the message, the only storage write on a failure path is the processed-message record"""
     pms = prog.find(adt="MDK", name="process_message", crate="mdk_core")
@@ -672,3 +699,4 @@ def run(ctx, rep):
     for pw in prog.find(adt="MDK", name="process_welcome", crate="mdk_core"):
         c16.clause_no_refusal_after_write(prog, rep, pw, rule="refused-event-writes")
         c16.clause_storage_refusal_after_write(prog, rep, pw, rule="refused-event-writes")
+    clause_ignored_has_no_effect(prog, rep)
